@@ -161,7 +161,7 @@ func (obj *SparseFloat32Vector) APPEND(w *SparseFloat32Vector) *SparseFloat32Vec
   return r
 }
 func (obj *SparseFloat32Vector) ToSparseFloat32Matrix(n, m int) *SparseFloat32Matrix {
-  if n*m != obj.n {
+  if n < 0 || m < 0 || n*m != obj.n {
     panic("Matrix dimension does not fit input vector!")
   }
   v := NullSparseFloat32Vector(obj.n)
